@@ -319,3 +319,74 @@ def _empty_guard(atoms, want_n, arr, cfg, rd, n):
             if tt == want_n:
                 has_n0 = True
     return has_sum0 and has_n0
+
+
+def r36_3(ctx, m):
+    from ..util import cfg_of, known_atoms, find_nodes
+    mi = m.func(EX, "minisanity")
+    ctx.saw_func(mi)
+    ctx.rule("R36.3", "classic minisanity: a lambda stored for later use (the per-sample operators) captures only variables that are not "
+                      "assigned again after its creation - closures bind late, a later `name = ...` would re-label the data residuals", floor=2)
+    stores = [st for st in ast.walk(mi.node) if isinstance(st, (ast.Assign, ast.AugAssign, ast.For))]
+    n = 0
+    for lam in [x for x in ast.walk(mi.node) if isinstance(x, ast.Lambda)]:
+        params = {a.arg for a in lam.args.args}
+        free = {x.id for x in ast.walk(lam.body) if isinstance(x, ast.Name) and isinstance(x.ctx, ast.Load) and x.id not in params}
+        later = []
+        for st in stores:
+            tgts = st.targets if isinstance(st, ast.Assign) else [st.target]
+            names = {x.id for t in tgts for x in ast.walk(t) if isinstance(x, ast.Name)}
+            if st.lineno > lam.lineno and names & free:
+                later.append((st, sorted(names & free)))
+        local_free = sorted(v for v in free if any(v in {x.id for t in (s_.targets if isinstance(s_, ast.Assign) else [s_.target]) for x in ast.walk(t) if isinstance(x, ast.Name)} for s_ in stores))
+        if not local_free:
+            continue
+        n += 1
+        ctx.check("R36.3", f"{mi.key}::`{short(lam, 50)}` captures {local_free}, none of them re-assigned afterwards", not later,
+                  f"`{src(later[0][0])[:70]}` (line {later[0][0].lineno}) re-binds {later[0][1]} after the lambda was created: the lambda will see the new value" if later else None, mi, lam)
+    if not n:
+        ctx.und("R36.3", f"{mi.key}::stored lambdas", "no lambda capturing a local found", mi)
+    ctx.rule("R36.4", "classic minisanity: every division by the number of counted entries is on a path where that number is known to "
+                      "be non-zero or the numerator is not (a key whose entries are all ignored reports 0, not 0/0 = NaN)", floor=2)
+    cfg = cfg_of(mi)
+    n = 0
+    for nd in cfg.nodes:
+        if nd.kind != "stmt" or nd.ast is None:
+            continue
+        for b in ast.walk(nd.ast):
+            if isinstance(b, ast.BinOp) and isinstance(b.op, ast.Div) and isinstance(b.right, ast.Name) and b.right.id == "lsize":
+                n += 1
+                atoms = known_atoms(cfg, nd.id)
+                # the guard `<num> == 0 and lsize == 0` is false on this path
+                guarded = any((not pol) and "lsize == 0" in src(t) for t, pol in atoms) or any(pol and src(t) in ("lsize != 0", "lsize > 0", "0 < lsize") for t, pol in atoms)
+                ctx.check("R36.4", f"{mi.key}::division {n} by the entry count `{short(b, 40)}` is not evaluated as 0/0", guarded,
+                          f"guards {[('' if p else 'not ') + src(t)[:50] for t, p in atoms][-3:]}: with every entry ignored this is 0/0", mi, b)
+    if not n:
+        ctx.und("R36.4", f"{mi.key}::divisions by the entry count", "none found", mi)
+    ctx.rule("R36.5", "nifty.re reduced_residual_stats: `func` is applied to what the statistics are computed from on EVERY path (bare "
+                      "position, empty and non-empty Samples): the application is guarded by `func is not None` only", floor=1)
+    rr = m.func(MS, "reduced_residual_stats")
+    ctx.saw_func(rr)
+    cfg = cfg_of(rr)
+    apps = [(nd, c) for nd, c in find_nodes(cfg, lambda q: isinstance(q, ast.Call) and isinstance(q.func, ast.Call) and src(q.func.args[0]) == "func" if isinstance(q, ast.Call) and isinstance(q.func, ast.Call) and q.func.args else False)]
+    key = f"{rr.key}::func is applied on every path"
+    if not apps:
+        apps = [(nd, c) for nd, c in find_nodes(cfg, lambda q: isinstance(q, ast.Call) and src(q.func) == "func")]
+    if len(apps) != 1:
+        ctx.und("R36.5", key, f"{len(apps)} applications of func", rr)
+    else:
+        nd, c = apps[0]
+        atoms = known_atoms(cfg, nd.id)
+        other = [(t, pol) for t, pol in atoms if "func" not in src(t)]
+        in_ifexp = isinstance(nd.ast, ast.Assign) and isinstance(nd.ast.value, ast.IfExp) and "func" in src(nd.ast.value.test)
+        fguard = in_ifexp or any("func" in src(t) for t, pol in atoms)
+        ctx.check("R36.5", key, (not other) and fguard if (other or fguard) else None,
+                  f"`{short(c, 50)}` only under {[('' if p else 'not ') + src(t)[:60] for t, p in other]}: for the other inputs func is silently ignored" if other else None, rr, c)
+
+
+_run_c36b = run
+
+
+def run(ctx):  # noqa: F811
+    _run_c36b(ctx)
+    r36_3(ctx, ctx.model)
